@@ -73,6 +73,7 @@ class Unit:
         self.name = os.path.splitext(os.path.basename(path))[0]
         self.items = []      # ('class', name, tu) ('opaque', names) ('global', names) ('fn', Fn)
         self.obs = []
+        self.pre0 = []
         self.pre = []
         self.post = []
         self._parse()
@@ -144,6 +145,10 @@ class Unit:
                 self.obs.append(Ob(rest[0], d, fl))
             elif cmd == 'lowered':
                 where = self.post
+            elif cmd == 'structs':
+                self.pre0 = self.pre
+                self.pre = []
+                where = self.pre
             else:
                 raise SpecError('%s: unknown directive %s' % (self.path, cmd))
 
@@ -194,7 +199,7 @@ class Unit:
                     out.append('typedef struct %s %s;' % (n, n))
         for _, cn, ctu in classes:
             out.append('typedef struct %s %s;' % (cn, cn))
-        out.extend(self.pre)
+        out.extend(self.pre0)
         statics_emitted = {}
         for _, cn, ctu in classes:
             lw.record(cn, ctu)
@@ -206,6 +211,7 @@ class Unit:
                 if name not in statics_emitted:
                     statics_emitted[name] = init
                     out.append('#ifndef %s\n#define %s (%s)\n#endif' % (name, name, init))
+        out.extend(self.pre)
         # lower functions
         lowered = []
         for it in self.items:
